@@ -30,6 +30,8 @@ func (o Op) String() string {
 		return fmt.Sprintf("%d:%s", o.Seat, o.A)
 	case "probe":
 		return fmt.Sprintf("probe[%d.%s(%d)]", o.Seat, o.A, o.X)
+	case "query":
+		return fmt.Sprintf("query[%s %d]", o.A, o.Seat)
 	}
 	return o.K
 }
@@ -183,6 +185,9 @@ func Apply(g pf.Game, op Op) error {
 		return g.Next()
 	case "act":
 		return gameAction(g, op.A, op.X)
+	case "query":
+		applyQuery(g, op)
+		return nil
 	case "probe":
 		if op.Seat < 0 {
 			switch op.A {
@@ -194,6 +199,8 @@ func Apply(g pf.Game, op Op) error {
 				return g.PayBlinds()
 			case "next":
 				return g.Next()
+			case "resume":
+				return g.Resume()
 			}
 			return gameAction(g, op.A, op.X)
 		}
@@ -218,6 +225,66 @@ func Apply(g pf.Game, op Op) error {
 		}
 	}
 	return fmt.Errorf("harness: unknown op %+v", op)
+}
+
+// Querier is an optional part of a Chooser: read-only calls on the live game
+// object between two operations (what a table service does to render a screen).
+type Querier interface {
+	Queries(h *Hand, gs *pf.GameState) []Op
+}
+
+var queryKinds = []string{"available", "allowed", "players", "json", "counts", "positions", "current", "seat"}
+
+// applyQuery calls getters of the public API; none of them is an operation of
+// the hand, so none of them may change anything.
+func applyQuery(g pf.Game, op Op) {
+	defer func() { recover() }()
+	var pl pf.Player
+	if op.Seat >= 0 && op.Seat < g.GetPlayerCount() {
+		pl = g.Player(op.Seat)
+	}
+	switch op.A {
+	case "available":
+		if pl != nil {
+			g.GetAvailableActions(pl)
+		}
+	case "allowed":
+		if pl != nil {
+			g.GetAllowedActions(pl)
+		}
+	case "players":
+		for _, p := range g.GetPlayers() {
+			p.SeatIndex()
+		}
+	case "json":
+		g.GetStateJSON()
+	case "counts":
+		g.GetAlivePlayerCount()
+		g.GetMovablePlayerCount()
+		g.GetPlayerCount()
+		g.GetEvent()
+	case "positions":
+		for _, p := range []pf.Player{g.Dealer(), g.SmallBlind(), g.BigBlind()} {
+			if p != nil {
+				p.State()
+			}
+		}
+	case "current":
+		if p := g.GetCurrentPlayer(); p != nil {
+			p.State()
+		}
+	case "seat":
+		if pl != nil {
+			pl.State()
+			pl.SeatIndex()
+			for _, a := range allActions {
+				pl.CheckAction(a)
+			}
+			for _, pos := range []string{"dealer", "sb", "bb"} {
+				pl.CheckPosition(pos)
+			}
+		}
+	}
 }
 
 func gameAction(g pf.Game, a string, x int64) error {
@@ -508,6 +575,25 @@ func (h *Hand) StepOnce(ch Chooser) (bool, *vlib.Violation) {
 	}
 	if h.StopAt != nil && h.StopAt(gs) {
 		return true, nil
+	}
+	if q, ok := ch.(Querier); ok {
+		if qs := q.Queries(h, gs); len(qs) > 0 {
+			before := ""
+			if h.Prop == "C07" {
+				before = Norm(h.G.GetState())
+			}
+			for _, op := range qs {
+				applyQuery(h.G, op)
+				h.Ops = append(h.Ops, op)
+			}
+			h.Facts["queried"] = true
+			if h.Prop == "C07" {
+				if after := Norm(h.G.GetState()); after != before {
+					return true, vlib.V("C07", "query-changed-state/"+qs[0].A, "read-only calls %v at %s changed the state of the in-memory game (a game rebuilt from the JSON never sees them):\n before=%s\n after =%s", qs, gs.Status.CurrentEvent, before, after)
+				}
+			}
+			h.cur = Clone(h.G.GetState())
+		}
 	}
 	if how := ch.Cut(h); how != "" {
 		h.CutNow = true
